@@ -1261,11 +1261,9 @@ Lemma stems_telescope B :
 Proof.
   induction B as [|a [|b r] IH]; intros HI HN; [contradiction|cbn; lia|].
   destruct HI as [Hab HI].
-  change (tl (a :: b :: r)) with (b :: r).
-  cbn [zip_with stems_len fold_right].
-  change (zip_with (fun a0 b0 : nat => b0 - a0 - 1) (b :: r) r)
-    with (zip_with (fun a0 b0 : nat => b0 - a0 - 1) (b :: r) (tl (b :: r))).
-  fold (stems_len (zip_with (fun a0 b0 : nat => b0 - a0 - 1) (b :: r) (tl (b :: r)))).
+  change (zip_with (fun a0 b0 : nat => b0 - a0 - 1) (a :: b :: r) (tl (a :: b :: r)))
+    with ((b - a - 1) :: zip_with (fun a0 b0 : nat => b0 - a0 - 1) (b :: r) (tl (b :: r))).
+  change (stems_len (b - a - 1 :: ?l)) with (S (b - a - 1) + stems_len l).
   rewrite IH by (auto; discriminate).
   change (List.last (a :: b :: r) 0) with (List.last (b :: r) 0). cbn [hd].
   assert (b <= List.last (b :: r) 0).
@@ -1278,8 +1276,117 @@ Qed.
 Lemma last_map {A B} (f : A -> B) l d : List.last (map f l) (f d) = f (List.last l d).
 Proof. induction l as [|x [|y r] IH]; try reflexivity. exact IH. Qed.
 
+Lemma prefix_length {A} (P0 : list A) X C R Y P1 :
+  length (P0 ++ [X] ++ C ++ R ++ [Y] ++ P1) = length P0 + 1 + length (C ++ R ++ [Y]) + length P1.
+Proof. rewrite !app_length. cbn [length]. lia. Qed.
+
+Lemma blk_good_F2 (sub : list hblock) : Forall blk_good sub ->
+  Forall2 (fun m n => m < n) (map (fun x : hblock => snd (fst x)) sub)
+          (map (fun x : hblock => length (fst (fst x))) sub).
+Proof.
+  induction 1 as [|x l [_ [H _]] _ IH]; cbn [map]; constructor; [exact H|exact IH].
+Qed.
+
+Lemma concat_rows_length (sub : list hblock) :
+  length (concat (map (fun x : hblock => fst (fst x)) sub))
+  = sum_list (map (fun x : hblock => length (fst (fst x))) sub).
+Proof.
+  induction sub as [|x l IH]; [reflexivity|].
+  cbn [map concat sum_list fold_right]. rewrite app_length, IH. reflexivity.
+Qed.
+
+Lemma last_le_sum l : List.last l 0 <= fold_right Nat.add 0 l.
+Proof.
+  induction l as [|x [|y r] IH]; cbn; try lia.
+  change (List.last (x :: y :: r) 0) with (List.last (y :: r) 0). cbn in IH. lia.
+Qed.
+
 Section HAssemble.
   Variables (st : hstyle) (inter : bool) (centered : str).
+
+  (* the third branch of hassemble (three or more children), for an arbitrary list of blocks *)
+  Definition hassemble3 (sub : list hblock) : hblock :=
+    let b := hs_branch st in
+    let node_str := if inter then [b; 32%N] ++ centered ++ [32%N; b] else [b; b; b] in
+    let padding := spaces (length node_str) in
+    let sp := padding ++ [32%N] in
+    let stem := padding ++ [hs_stem st] in
+    let result := concat (map (fun x : hblock => fst (fst x)) sub) in
+    let nrow := map (fun x : hblock => length (fst (fst x))) sub in
+    let idx := map (fun x : hblock => snd (fst x)) sub in
+    let ok := forallb (fun x : hblock => snd x) sub in
+    let first := hd 0 idx in
+    let last := sum_list nrow + List.last idx 0 - List.last nrow 0 in
+    let end_ := sum_list nrow - 1 in
+    let mid := (first + last) / 2 in
+    let branch_idxs := zip_with Nat.add idx (0 :: accumulate 0 nrow) in
+    let n_stems := zip_with (fun a b => b - a - 1) branch_idxs (tl branch_idxs) in
+    let prefix :=
+      repeat sp first ++ [padding ++ [hs_first st]]
+      ++ concat (map (fun n => repeat stem n ++ [padding ++ [hs_subseq st]]) (removelast n_stems))
+      ++ repeat stem (List.last n_stems 0) ++ [padding ++ [hs_last st]]
+      ++ repeat sp (end_ - last) in
+    let prefix1 := set_nth mid (node_str ++ [hs_split st]) prefix in
+    let prefix2 := if existsb (Nat.eqb mid) branch_idxs
+                   then set_nth mid (node_str ++ [hs_middle st]) prefix1 else prefix1 in
+    (zip_with (@app N) prefix2 result, mid, ok).
+
+  Lemma hassemble3_good sub :
+    Forall blk_good sub -> 3 <= length sub ->
+    blk_good (hassemble3 sub) /\
+    blk_rows (hassemble3 sub) = match map blk_rows sub with [1; 1] => 3 | rs => fold_right Nat.add 0 rs end.
+  Proof.
+    intros HG H3.
+    set (idx := map (fun x : hblock => snd (fst x)) sub).
+    set (nrow := map (fun x : hblock => length (fst (fst x))) sub).
+    assert (HLen : length idx = length nrow) by (unfold idx, nrow; rewrite !map_length; reflexivity).
+    assert (HF : Forall2 (fun m n => m < n) idx nrow) by (apply blk_good_F2; exact HG).
+    assert (HOK : forallb (fun x : hblock => snd x) sub = true).
+    { apply forallb_forall. intros x Hx. rewrite Forall_forall in HG. apply (HG x Hx). }
+    destruct (bidx_props idx nrow 0 HLen HF) as [BI [BB [BL BH]]].
+    assert (Hres : length (concat (map (fun x : hblock => fst (fst x)) sub)) = sum_list nrow)
+      by apply concat_rows_length.
+    unfold hassemble3. fold idx. fold nrow. rewrite HOK.
+    cbv zeta. rewrite (branch_idxs_bidx idx nrow 0 HLen).
+    set (B := bidx 0 idx nrow) in *.
+    destruct sub as [|[[r0 m0] o0] [|[[r1 m1] o1] [|b2 rest]]]; try (cbn in H3; lia).
+    assert (HBne : B <> []) by (unfold B, idx, nrow; cbn; discriminate).
+    set (first := hd 0 idx). set (last_ := sum_list nrow + List.last idx 0 - List.last nrow 0).
+    assert (Hfirst : hd 0 B = first) by (rewrite BH; unfold first, idx; cbn; lia).
+    assert (Hlast : List.last B 0 = last_) by (rewrite BL; unfold last_, idx; cbn [map]; lia).
+    assert (Hsum : sum_list nrow = length r0 + (length r1 + (blk_rows b2 + sum_list (map blk_rows rest)))).
+    { unfold nrow. cbn [map sum_list fold_right fst]. unfold blk_rows. reflexivity. }
+    assert (Hm0 : m0 < length r0) by (inversion HG as [|? ? [_ [Hx _]] _]; exact Hx).
+    assert (Hr1 : 1 <= length r1).
+    { inversion HG as [|? ? _ HG1]; inversion HG1 as [|? ? [_ [Hx _]] _]. unfold blk_rows, blk_mid in Hx. cbn in Hx. lia. }
+    assert (Hf0 : first = m0) by reflexivity.
+    assert (HlastB : first + 2 <= last_ /\ last_ < sum_list nrow).
+    { assert (Hin : In (List.last B 0) B).
+      { destruct B as [|b0 Bt]; [contradiction|]. apply (@exists_last _ (b0 :: Bt)) in HBne as [l' [z Hz]].
+        rewrite Hz. rewrite last_last. apply in_or_app. right. left. reflexivity. }
+      apply BB in Hin. rewrite Hlast in Hin. split; [|lia].
+      unfold last_, idx, nrow.
+      cbn [map fst snd].
+      change (List.last (m0 :: m1 :: ?x) 0) with (List.last x 0).
+      change (List.last (length r0 :: length r1 :: ?x) 0) with (List.last x 0).
+      cbn [sum_list fold_right].
+      pose proof (last_le_sum (length (fst (fst b2)) :: map (fun x : hblock => length (fst (fst x))) rest)) as HLS.
+      cbn [fold_right] in HLS. lia. }
+    destruct HlastB as [HL2 HLe].
+    destruct (mid_bounds first last_ HL2) as [M1 M2].
+    set (mid := (first + last_) / 2) in *.
+    unfold blk_good, blk_rows, blk_mid. cbn [fst snd].
+    rewrite zip_with_length.
+    match goal with |- context [if ?c then _ else _] => destruct c end;
+      rewrite ?set_nth_length.
+    all: rewrite prefix_length;
+      rewrite (middle_length _ _ _ _ ltac:(unfold B, idx, nrow; cbn; discriminate));
+      rewrite !repeat_length, (stems_telescope B BI HBne), Hfirst, Hlast, Hres.
+    all: replace (Nat.min _ _) with (sum_list nrow) by lia.
+    all: split; [repeat split; lia|].
+    all: rewrite Hsum; cbn [map]; unfold blk_rows at 1 2; cbn [fst];
+      destruct (length r0) as [|[|?]]; destruct (length r1) as [|[|?]]; cbn [fold_right]; try reflexivity; lia.
+  Qed.
 
   Lemma hassemble_good sub :
     sub <> [] -> Forall blk_good sub ->
@@ -1295,14 +1402,14 @@ Section HAssemble.
       rewrite Nat.add_0_r. replace (length r0 + m0 - length r0) with m0 by lia. rewrite mid_same.
       unfold blk_good, blk_rows, blk_mid. cbn [fst snd].
       rewrite zip_with_length, !app_length, !repeat_length. cbn [length].
-      rewrite concat_cons, concat_nil, app_nil_r.
+      rewrite concat_cons, concat_nil, app_nil_r. unfold str in *.
       replace (Nat.min (m0 + (1 + (length r0 - 1 - m0))) (length r0)) with (length r0) by lia.
-      split; [|destruct (length r0) as [|[|?]]; reflexivity]. repeat split; try lia. reflexivity.
+      split; [|destruct (length r0) as [|[|?]]; lia]. repeat split; lia.
     - (* two children *)
       inversion HG as [|? ? [G1 [G2 G3]] HG']; subst. inversion HG' as [|? ? [K1 [K2 K3]] _]; subst.
       cbn in G1, G2, G3, K1, K2, K3. subst o0 o1.
       unfold hassemble. cbn [map fst snd forallb hd List.last sum_list fold_right length andb].
-      rewrite Nat.add_0_r.
+      unfold str in *. rewrite Nat.add_0_r.
       replace (length r0 + length r1 + m1 - length r1) with (length r0 + m1) by lia.
       cbn [concat]. rewrite app_nil_r.
       destruct (Nat.eqb (length r0 + m1 - m0) 1) eqn:EG.
@@ -1310,78 +1417,23 @@ Section HAssemble.
         apply Nat.eqb_eq in EG.
         assert (E0 : length r0 = 1) by lia. assert (E1 : length r1 = 1) by lia.
         assert (M0 : m0 = 0) by lia. assert (M1 : m1 = 0) by lia. subst m0 m1.
-        unfold blk_good, blk_rows, blk_mid. cbn [fst snd].
-        rewrite app_length, E0, E1. cbn [Nat.add Nat.eqb negb orb andb].
-        change ((0 + 2 - 0) / 2) with 1. cbn [Nat.sub repeat app].
-        cbn [zip_with length]. split; [repeat split; lia|reflexivity].
+        unfold blk_good, blk_rows, blk_mid. cbn [fst snd]. unfold str in *.
+        replace ((0 + 2 - 0) / 2) with 1 by reflexivity.
+        rewrite zip_with_length, !app_length, !repeat_length. cbn [length].
+        rewrite E0, E1. cbn [Nat.add Nat.sub Nat.eqb negb orb andb Nat.min].
+        split; [repeat split; lia|reflexivity].
       + apply Nat.eqb_neq in EG.
         assert (HL : m0 + 2 <= length r0 + m1) by lia.
         destruct (mid_bounds m0 (length r0 + m1) HL) as [B1 B2].
         set (mid := (m0 + (length r0 + m1)) / 2) in *.
-        unfold blk_good, blk_rows, blk_mid. cbn [fst snd negb orb andb].
-        rewrite zip_with_length, !app_length, !repeat_length, app_length. cbn [length].
+        unfold blk_good, blk_rows, blk_mid. cbn [fst snd negb orb andb]. unfold str in *.
+        rewrite zip_with_length, !app_length, !repeat_length. cbn [length].
         replace (Nat.min _ _) with (length r0 + length r1) by lia.
         split; [repeat split; lia|].
         destruct (length r0) as [|[|?]] eqn:E0; destruct (length r1) as [|[|?]] eqn:E1; try reflexivity; lia.
     - (* three or more children *)
-      set (sub := (r0, m0, o0) :: (r1, m1, o1) :: b2 :: rest) in *.
-      set (idx := map (fun x : hblock => snd (fst x)) sub).
-      set (nrow := map (fun x : hblock => length (fst (fst x))) sub).
-      assert (HLen : length idx = length nrow) by (unfold idx, nrow; rewrite !map_length; reflexivity).
-      assert (HF : Forall2 (fun m n => m < n) idx nrow).
-      { unfold idx, nrow. clear -HG. induction HG as [|x l [_ [H _]] _ IH]; cbn [map]; constructor; auto. }
-      assert (HOK : forallb (fun x : hblock => snd x) sub = true).
-      { apply forallb_forall. intros x Hx. rewrite Forall_forall in HG. apply (HG x Hx). }
-      destruct (bidx_props idx nrow 0 HLen HF) as [BI [BB [BL BH]]].
-      assert (Hres : length (concat (map (fun x : hblock => fst (fst x)) sub)) = sum_list nrow).
-      { unfold nrow. clear. induction sub as [|x l IH]; [reflexivity|].
-        cbn [map concat sum_list fold_right]. rewrite app_length, IH. reflexivity. }
-      unfold hassemble. fold idx. fold nrow. rewrite HOK.
-      change (match sub with
-              | [_] => ?a | [_; _] => ?b | _ => ?c end) with c.
-      cbv zeta. rewrite (branch_idxs_bidx idx nrow 0 HLen).
-      set (B := bidx 0 idx nrow) in *.
-      assert (HBne : B <> []) by (unfold B, idx, nrow, sub; cbn; discriminate).
-      set (first := hd 0 idx). set (last_ := sum_list nrow + List.last idx 0 - List.last nrow 0).
-      assert (Hfirst : hd 0 B = first) by (rewrite BH; unfold first, idx, sub; cbn; lia).
-      assert (Hlast : List.last B 0 = last_) by (rewrite BL; unfold last_, idx, sub; cbn [map]; lia).
-      assert (Hsum : sum_list nrow = length r0 + (length r1 + (blk_rows b2 + sum_list (map blk_rows rest)))).
-      { unfold nrow, sub. cbn [map sum_list fold_right fst]. unfold blk_rows. reflexivity. }
-      assert (Hm0 : m0 < length r0) by (inversion HG as [|? ? [_ [H _]] _]; exact H).
-      assert (Hr1 : 1 <= length r1).
-      { inversion HG as [|? ? _ HG1]; inversion HG1 as [|? ? [_ [H _]] _]. unfold blk_rows, blk_mid in H. cbn in H. lia. }
-      assert (Hf0 : first = m0) by reflexivity.
-      assert (HlastB : first + 2 <= last_ /\ last_ < sum_list nrow).
-      { assert (Hin : In (List.last B 0) B).
-        { destruct B as [|b0 Bt]; [contradiction|]. apply (@exists_last _ (b0 :: Bt)) in HBne as [l' [z Hz]].
-          rewrite Hz. rewrite last_last. apply in_or_app. right. left. reflexivity. }
-        apply BB in Hin. rewrite Hlast in Hin. split; [|lia].
-        (* the last branch row is at least two rows below the first *)
-        unfold last_, idx, nrow, sub.
-        cbn [map fst snd].
-        change (List.last (m0 :: m1 :: ?x) 0) with (List.last x 0).
-        change (List.last (length r0 :: length r1 :: ?x) 0) with (List.last x 0).
-        cbn [sum_list fold_right].
-        set (tailn := map (fun x : hblock => length (fst (fst x))) (b2 :: rest)).
-        set (taili := map (fun x : hblock => snd (fst x)) (b2 :: rest)).
-        assert (List.last tailn 0 <= fold_right Nat.add 0 tailn).
-        { clear. induction tailn as [|x [|y r] IH]; cbn; try lia.
-          change (List.last (x :: y :: r) 0) with (List.last (y :: r) 0). cbn in IH. lia. }
-        lia. }
-      destruct HlastB as [HL2 HLe].
-      destruct (mid_bounds first last_ HL2) as [M1 M2].
-      set (mid := (first + last_) / 2) in *.
-      unfold blk_good, blk_rows, blk_mid. cbn [fst snd].
-      rewrite zip_with_length.
-      match goal with |- context [if ?c then _ else _] => destruct c end;
-        rewrite ?set_nth_length.
-      all: rewrite !app_length, !repeat_length; cbn [length];
-        rewrite <- app_length;
-        rewrite (middle_length _ _ _ _ ltac:(unfold B, idx, nrow, sub; cbn; discriminate));
-        rewrite (stems_telescope B BI HBne), Hfirst, Hlast, Hres.
-      all: replace (Nat.min _ _) with (sum_list nrow) by lia.
-      all: split; [repeat split; lia|].
-      all: rewrite Hsum; unfold sub; cbn [map]; unfold blk_rows at 1 2; cbn [fst];
-        destruct (length r0) as [|[|?]]; destruct (length r1) as [|[|?]]; cbn [fold_right]; try reflexivity; lia.
+      change (hassemble st inter centered ((r0, m0, o0) :: (r1, m1, o1) :: b2 :: rest))
+        with (hassemble3 ((r0, m0, o0) :: (r1, m1, o1) :: b2 :: rest)).
+      apply hassemble3_good; [exact HG|cbn; lia].
   Qed.
 End HAssemble.
